@@ -60,6 +60,45 @@ fn fix_opt(_: &mut Src, v: RVal) -> RVal {
     }
     go(&v)
 }
+/// a collection of options: every element an array of at most one value, and now and then 33..45
+/// elements, most of them None (state leaking from one None to the next shows only past the limits)
+fn fix_opts_in_collection(src: &mut Src, v: RVal) -> RVal {
+    fn one(v: &RVal) -> RVal {
+        match v {
+            RVal::A(e, items) => RVal::A(e.clone(), items.iter().take(1).cloned().collect()),
+            x => x.clone(),
+        }
+    }
+    let long = src.chance(110);
+    let n = 33 + src.below(13);
+    match v {
+        RVal::A(e, items) => {
+            let mut items: Vec<RVal> = items.iter().map(one).collect();
+            if long {
+                let some: Option<RVal> = items.iter().find(|i| matches!(i, RVal::A(_, x) if !x.is_empty())).cloned();
+                let none = match &e {
+                    RSig::A(inner) => RVal::A((**inner).clone(), vec![]),
+                    _ => return RVal::A(e, items),
+                };
+                items = (0..n).map(|_| if src.chance(40) { some.clone().unwrap_or(none.clone()) } else { none.clone() }).collect();
+            }
+            RVal::A(e, items)
+        }
+        RVal::Dict(k, vs, entries) => {
+            let mut entries: Vec<(RVal, RVal)> = entries.iter().map(|(a, b)| (a.clone(), one(b))).collect();
+            if long {
+                let some: Option<RVal> = entries.iter().map(|e| &e.1).find(|i| matches!(i, RVal::A(_, x) if !x.is_empty())).cloned();
+                let none = match &vs {
+                    RSig::A(inner) => RVal::A((**inner).clone(), vec![]),
+                    _ => return RVal::Dict(k, vs, entries),
+                };
+                entries = (0..n).map(|i| (RVal::Y(i as u8), if src.chance(40) { some.clone().unwrap_or(none.clone()) } else { none.clone() })).collect();
+            }
+            RVal::Dict(k, vs, entries)
+        }
+        x => x,
+    }
+}
 fn fix_nonzero(_: &mut Src, v: RVal) -> RVal {
     v.map(&|x| match x {
         RVal::U(0) => Some(RVal::U(1)),
@@ -361,7 +400,9 @@ mod opt {
     table! {
         Option<u32> => "au", fix_opt;
         Option<String> => "as", fix_opt;
-        Vec<Option<u8>> => "aay", fix_opt;
+        Vec<Option<u8>> => "aay", fix_opts_in_collection;
+        Vec<Option<String>> => "aas", fix_opts_in_collection;
+        std::collections::HashMap<u8, Option<u32>> => "a{yau}", fix_opts_in_collection;
         (Option<u64>, u8) => "(aty)", fix_opt;
         Option<(u8, String)> => "a(ys)", fix_opt;
         Option<Vec<u8>> => "aay", fix_opt;
